@@ -220,6 +220,7 @@ func main() {
 	opsPer := core.Pick(args, 60, 150)
 	concurrent(rep, args, rounds, opsPer)
 
+	byteRanges(rep)
 	rep.Finish()
 }
 
